@@ -1770,3 +1770,87 @@ def report_witness(r, construct, where, result, ok_text, select=None):
         r.info(construct, f"not evaluated ({unsup}); the structural rules decide")
     else:
         r.ok(construct, f"{n} evaluated invocations: {ok_text}", where)
+
+
+# --------------------------------------------------------------------------- scheduler state codes by evaluation
+def _scheduler_answer(exe, args, code, job="4242"):
+    """What the scheduler prints for one job in state `code`, in the format the command line asks for (so a format/parser mismatch shows)."""
+    args = [str(a) for a in args]
+    if exe == "squeue":
+        fmt = next((a[len("--format="):] for a in args if a.startswith("--format=")), None)
+        if fmt is None and "-o" in args:
+            fmt = args[args.index("-o") + 1]
+        if fmt is None:
+            fmt = "%.18i %.9P %.8j %.8u %.2t %.10M %.6D %R"
+        line = fmt.replace("%i", job).replace("%t", code).replace("%T", code)
+        other = fmt.replace("%i", "777").replace("%t", "R").replace("%T", "RUNNING")   # somebody else's job
+        return line + "\n" + other + "\n"
+    if exe == "sacct":
+        fmt = next((a[len("--format="):] for a in args if a.lower().startswith("--format=")), "jobid,state")
+        delim = "|" if ("--parsable2" in args or "-P" in args or "--parsable" in args or "-p" in args) else " "
+        cols = [c.strip().lower() for c in fmt.split(",")]
+        row = delim.join(job if c == "jobid" else code if c == "state" else "x" for c in cols)
+        return row + ("|" if "--parsable" in args or "-p" in args else "") + "\n"
+    if exe == "bjobs":
+        return code + "\n"
+    if exe == "qstat":
+        return ("<?xml version='1.0'?><job_info><queue_info><job_list state='x'><JB_job_number>%s</JB_job_number><state>%s</state></job_list>"
+                "</queue_info><job_info><job_list state='x'><JB_job_number>777</JB_job_number><state>qw</state></job_list></job_info></job_info>") % (job, code)
+    raise Unsupported(f"unexpected scheduler command {exe}")
+
+
+def eval_state_code(ctx, mod, cname, method, code, accounting=True):
+    """<Ops>.<method>(['4242']) with the scheduler answering `code` for job 4242: the BackendStatus member reported for it (or '<absent>')."""
+    ci = ctx.index.cls(f"{mod}:{cname}")
+    m = ctx.index.method(ci, method)
+    if m is None:
+        return "<no such method>", None
+
+    def fake_call(exe, *args, **kw):
+        return _scheduler_answer(exe, args, code)
+
+    interp = PureInterp(ctx, hooks={"gwf.backends.utils.call": fake_call})
+    interp.max_depth = 12
+    obj = Obj("ops", working_dir=PROJ, log_mode="full", accounting_enabled=accounting, target_defaults={}, **{"__class__": ci})
+    try:
+        res = interp.call(m, (["4242"],), {}, self_obj=obj)
+    except Raised as exc:
+        return f"<raises {exc.kind}: {exc.detail[:60]}>", m
+    except Unsupported as exc:
+        return f"<unsupported: {exc}>", m
+    if not hasattr(res, "get"):
+        return f"<returns {type(res).__name__}>", m
+    if "777" in res and method.endswith("squeue"):
+        return "<a job gwf does not track enters the state map>", m
+    v = res.get("4242", "<absent>")
+    return (v.member if isinstance(v, EnumVal) else v), m
+
+
+def state_codes_witness(ctx, which=("squeue", "sacct", "bjobs", "qstat")):
+    from ..reference import states as REF
+    plans = {
+        "squeue": ("gwf.backends.slurm", "SlurmOps", "get_job_states_from_squeue", REF.SLURM_SHORT, "squeue"),
+        "sacct": ("gwf.backends.slurm", "SlurmOps", "get_job_states_from_sacct", REF.SLURM_LONG, "sacct"),
+        "bjobs": ("gwf.backends.lsf", "LSFOps", "get_job_states", REF.LSF, "bjobs"),
+        "qstat": ("gwf.backends.sge", "SGEOps", "get_job_states", REF.SGE, "qstat"),
+    }
+    diffs, n = [], 0
+    for key in which:
+        mod, cname, meth, table, tool = plans[key]
+        codes = dict(table)
+        if key == "sacct":
+            codes["CANCELLED by 1234"] = ({"CANCELLED"}, "sacct appends the uid")
+        for code, (allowed, why) in codes.items():
+            got, m = eval_state_code(ctx, mod, cname, meth, code)
+            if isinstance(got, str) and got.startswith("<unsupported"):
+                return n, diffs, f"{cname}.{meth}: {got}"
+            n += 1
+            shown = "UNKNOWN" if got == "<absent>" else got
+            if shown not in allowed:
+                diffs.append(f"{tool} state {code!r} ({why}) is reported as {got}; the property allows {sorted(allowed)}")
+        if key == "bjobs":
+            got, m = eval_state_code(ctx, mod, cname, meth, "")
+            n += 1
+            if got not in ("UNKNOWN", "<absent>"):
+                diffs.append(f"an empty bjobs answer (no record of the job) is reported as {got}, expected UNKNOWN")
+    return n, diffs, None
